@@ -97,13 +97,17 @@ PROPS['C19'] = dict(
 
 PROPS['C20'] = dict(
     level='other',
-    claim='raptor DefaultWorker._alloc/_dealloc verified for every occupancy vector and request size (count-based loop invariants, no bound): a grant names exactly the requested number of distinct free cells and marks only those; release is the inverse (round-trip lemma); grants are disjoint from cells held by other requests (lemma)',
-    note='request dispatch (_request_cb/_result_cb), master result mapping and the per-mode dispatchers are not yet under contract; the two-process time-out is outside this family',
+    claim='raptor DefaultWorker._alloc/_dealloc verified for every occupancy vector and request size (count-based loop invariants, no bound): a grant names exactly the requested number of distinct free cells and marks only those; release is the inverse (round-trip lemma); grants are disjoint from cells held by other requests (lemma); Master._result_cb: every returned request is handed on once with target state DONE iff it reported exit code 0, FAILED otherwise. The per-mode dispatchers (function, eval, exec, process, shell: return value, captured output, exit code, exception record, environment and output streams restored) are decided by a bounded native run of the real dispatchers (labelled bounded)',
+    note='request dispatch in DefaultWorker._request_cb / _result_cb (allocate before dispatch, release on every outcome) and the routing in Master._submit_tasks are not under contract; the two-process time-out is outside this family; exec / eval / StringIO redirection are outside the verified subset, so the dispatchers are bounded only',
     assumptions=['A2', 'A4', 'A7', 'A11'],
-    explanation='allocator functional contract + inverse lemma + disjointness lemmas; a negative GPU demand is excluded by a stated shape precondition',
+    explanation='allocator functional contract + inverse lemma + disjointness lemmas; a negative GPU demand is excluded by a stated shape precondition; exit code -> target state as a postcondition of Master._result_cb; bounded native dispatch of request payloads',
+    bounded=[dict(name='worker-dispatch', cmd=['harness/run_bounded.py', 'worker-dispatch'], timeout=600)],
     clauses={'never two requests on one core/GPU': 'P (allocator + lemmas)',
              'resources given back (round trip)': 'P',
-             'request answered exactly once / result mapping / dispatch restore': 'not yet built',
+             'exit code 0 -> DONE, otherwise FAILED; handed on once': 'P (Master._result_cb)',
+             'return value / output / exit code / exception per mode; environment and streams restored': 'B (worker-dispatch)',
+             'allocate before dispatch, release on every outcome (_request_cb)': 'not under contract',
+             'routing by mode (Master._submit_tasks)': 'not under contract',
              'time-out across two processes': 'N'})
 
 PROPS['C01'] = dict(
